@@ -203,8 +203,8 @@ theorem checkPositive_obl {x1 x2 : LinComb} (hx : lcEq x1 x2) (bits : Option Nat
     obl
 macro_rules | `(tactic| obl_rule) => `(tactic| with_reducible apply checkPositive_obl)
 
-theorem assertPositive_obl {x1 x2 : LinComb} (hx : lcEq x1 x2) (b1 b2 : Option Nat) :
-    Obl (fun _ _ => True) (assertPositive x1 b1) (assertPositive x2 b2) := by
+theorem assertPositive_obl {x1 x2 : LinComb} (hx : lcEq x1 x2) (b : Option Nat) :
+    Obl (fun _ _ => True) (assertPositive x1 b) (assertPositive x2 b) := by
   obl_intro
   unfold assertPositive at h1 h2
   simp only at h1 h2
